@@ -403,9 +403,9 @@ fn negative_case(t: &mut Tape, rec: &mut Rec) -> CaseResult {
 pub fn run(ctx: &Ctx) {
     ctx.set_rule("shape = {v4,v6} x primary {Ed25519Legacy, Ed25519, Ed448, ECDSA P-256/P-384/P-521/secp256k1, RSA-2048, DSA-2048} x 0..3 subkeys {ECDH Curve25519Legacy/P-256/P-384/P-521, X25519, X448, RSA, signing subkeys} x {unlocked, primary locked, subkeys locked (CFB iterated / AEAD Argon2 with tiny cost)} x 0..3 user ids x flags x preferences x header format, each with its own RNG seed; oracle: bindings verify on secret and public key (back signatures checked explicitly), binary and armored export/import equality for both halves, fingerprints agree, flags/preferences/features equal the request, signing keys and subkeys sign (and refuse a wrong password), encryption subkeys decrypt what was encrypted to them (and refuse a wrong password), exported bytes de-frame legally and decode with the own key decoder; illegal shapes are refused; leading-zero occurrences are measured (labels); non-trivial = every generated key; distinct = (shape, seed)");
     ctx.assume("leading-zero MPI/scalar cases occur with probability 1/256 per field and seed: their count is measured and reported under classes, not guaranteed");
-    let n = ctx.tier.pick(4000u64, 80_000);
+    let n = ctx.tier.pick(4000u64, 320_000);
     ctx.group("cheap-shapes", Source::Random { n, tape_len: 160 }, |t, rec| key_case(t, rec, true));
-    let n = ctx.tier.pick(60u64, 1_500);
+    let n = ctx.tier.pick(60u64, 6_000);
     ctx.group("expensive-shapes", Source::Random { n, tape_len: 160 }, |t, rec| key_case(t, rec, false));
     ctx.group("illegal-shapes", Source::Indexed { count: 5 }, negative_case);
 }
